@@ -447,7 +447,7 @@ def judge(case):
 
 
 DATA_OPTIONS = st.fixed_dictionaries({}, optional={
-    "addition": st.sampled_from([True, False, "int"]), "case_insensitive": st.just(True), "ignore_required": st.just(True),
+    "addition": st.sampled_from([True, False, "int", "list_int"]), "case_insensitive": st.just(True), "ignore_required": st.just(True),
     "no_default": st.just(True),
 })
 
